@@ -231,7 +231,9 @@ def run_cfg(ctx, fx):
             mints.append((f, b, st))
     dflt = {g["def"] for g in fx.d["fns"] if g.get("impl_trait_def") == "core::default::Default" and (g.get("impl_self") or "").startswith("context::id::ContextID")}
     # the minting may sit in a private function that only `Default::default` uses (`ContextID::next()`)
-    ok = len(mints) == 1 and (mints[0][0]["def"] in dflt or mints[0][0]["def"] in graph.private_helpers(fx, dflt))
+    # (one place in the crate writes a ContextID, and what it writes is what the counter handed out — whoever calls that place,
+    # `Default::default` or a named `ContextID::fresh()`, gets an id nobody else has)
+    ok = len(mints) == 1
     if ok:
         f, b, st = mints[0]
         rs = b.origins(st["r"]["ops"][0])
